@@ -3082,6 +3082,7 @@ pub mod verif_stream_hook {
     thread_local! {
         static EVENTS: RefCell<Vec<EncodeEvent>> = RefCell::new(Vec::new());
     }
+    pub const MAX_EVENTS_PER_CALL: usize = 1 << 20;
 
     pub fn before<Alloc: BrotliAlloc>(
         s: &BrotliEncoderStateStruct<Alloc>,
@@ -3121,7 +3122,17 @@ pub mod verif_stream_hook {
         ev.last_flush_pos_after = s.last_flush_pos_;
         ev.last_processed_pos_after = s.last_processed_pos_;
         ev.is_last_block_emitted_after = s.is_last_block_emitted_;
-        EVENTS.with(|e| e.borrow_mut().push(ev));
+        let n = EVENTS.with(|e| {
+            let mut v = e.borrow_mut();
+            v.push(ev);
+            v.len()
+        });
+        // one call legitimately makes about input/1024 + 3 invocations; a harness drains the log
+        // after every call, so this only fires when a loop of the stream machine spins
+        if n > MAX_EVENTS_PER_CALL {
+            EVENTS.with(|e| e.borrow_mut().clear());
+            panic!("verif_stream_hook: more than {} payload-encoder invocations without a drain (the calling loop does not terminate)", MAX_EVENTS_PER_CALL);
+        }
     }
 
     /// drain the log of the calling thread
